@@ -1,6 +1,8 @@
 package loader
 
 import (
+	"context"
+
 	"github.com/compose-spec/compose-go/v2/paths"
 	"github.com/compose-spec/compose-go/v2/types"
 )
@@ -12,6 +14,23 @@ func genBase() (genSite, string, map[string]any) {
 	site, attr, value, _ := genPick("v1", "10", "1s")
 	genFiles()
 	return site, attr, genDoc(site, attr, value)
+}
+
+// genLoadIn loads one document as the main file of a project whose directory is dir.
+func genLoadIn(dir string, doc map[string]any) (*types.Project, error) {
+	return LoadWithContext(context.Background(), types.ConfigDetails{
+		WorkingDir:  dir,
+		ConfigFiles: []types.ConfigFile{{Filename: dir + "/compose.yaml", Config: doc}},
+		Environment: types.Mapping{},
+	}, func(o *Options) {
+		o.SetProjectName("p", true)
+	})
+}
+
+func genFilesIn(dir string) {
+	vrtFile(dir+"/v1", "K=v\n")
+	vrtFile(dir+"/10", "K=v\n")
+	vrtFile(dir+"/1s", "K=v\n")
 }
 
 func genDocCopy(d map[string]any) map[string]any { return genCopy(d).(map[string]any) }
@@ -71,12 +90,12 @@ func VerifGenPreserve() {
 	cls := site.section + "." + attr
 	// A: one file holding everything
 	a := genDocCopy(doc)
-	a["services"].(map[string]any)["s"].(map[string]any)["hostname"] = "own"
+	a["services"].(map[string]any)[genSvc].(map[string]any)["hostname"] = "own"
 	pa, ea := tcLoadProject(types.Mapping{}, nil, a)
 	vrtObserve("err", ea != nil)
 	vrtAssume(ea == nil)
 	// B: the attribute in the first file, an unrelated attribute in the second
-	h := map[string]any{"services": map[string]any{"s": map[string]any{"hostname": "own"}}}
+	h := map[string]any{"services": map[string]any{genSvc: map[string]any{"hostname": "own"}}}
 	pb, eb := tcLoadProject(types.Mapping{}, nil, genDocCopy(doc), h)
 	vrtAssert("later-file-not-mentioning-loads#"+cls, eb == nil)
 	if eb == nil {
@@ -87,26 +106,26 @@ func VerifGenPreserve() {
 	second := map[string]any{}
 	switch site.section {
 	case "services":
-		s := first["services"].(map[string]any)["s"].(map[string]any)
+		s := first["services"].(map[string]any)[genSvc].(map[string]any)
 		v := s[attr]
 		if attr == "image" {
 			s["build"] = "."
 			a2 := genDocCopy(a)
-			a2["services"].(map[string]any)["s"].(map[string]any)["build"] = "."
+			a2["services"].(map[string]any)[genSvc].(map[string]any)["build"] = "."
 			var e error
 			pa, e = tcLoadProject(types.Mapping{}, nil, a2)
 			vrtAssume(e == nil)
 		}
 		delete(s, attr)
-		second["services"] = map[string]any{"s": map[string]any{attr: v}}
+		second["services"] = map[string]any{genSvc: map[string]any{attr: v}}
 	default:
-		r := first[site.section].(map[string]any)["r"].(map[string]any)
+		r := first[site.section].(map[string]any)[genRes].(map[string]any)
 		v := r[attr]
 		delete(r, attr)
 		if len(r) == 0 && (site.section == "secrets" || site.section == "configs") {
 			return // the first file alone would not be a valid document
 		}
-		second[site.section] = map[string]any{"r": map[string]any{attr: v}}
+		second[site.section] = map[string]any{genRes: map[string]any{attr: v}}
 	}
 	pc, ec := tcLoadProject(types.Mapping{}, nil, first, second)
 	if ec != nil {
@@ -124,17 +143,34 @@ func VerifGenExtends() {
 	vrtAssume(site.section == "services" && attr != "hostname" && attr != "extends")
 	cls := attr
 	a := genDocCopy(doc)
-	a["services"].(map[string]any)["s"].(map[string]any)["hostname"] = "own"
+	a["services"].(map[string]any)[genSvc].(map[string]any)["hostname"] = "own"
 	pa, ea := tcLoadProject(types.Mapping{}, nil, a)
 	vrtObserve("err", ea != nil)
 	vrtAssume(ea == nil)
-	want := pa.Services["s"]
-	otherFile := vrtChoice("otherFile", 2) == 1
+	want := pa.Services[genSvc]
+	where := vrtChoice("baseIn", 3) // same file, another file of the project directory, a file of a sub-directory
 	b := genDocCopy(doc)
-	ext := map[string]any{"service": "s"}
-	if otherFile {
+	ext := map[string]any{"service": genSvc}
+	switch where {
+	case 1:
 		vrtYamlFile(vrtRoot()+"/w/base.yaml", genDocCopy(doc))
 		ext["file"] = "base.yaml"
+	case 2:
+		// inherited relative paths resolve against the base file's directory: the expected service is the one
+		// the same document yields when loaded as a project of that directory
+		if attr == "build" {
+			// a build without context takes the default context when the extending project is normalised, i.e.
+			// the project directory, not the base file's directory (pinned by the suite: TestLoadExtendsSameFile)
+			bm, isMap := doc["services"].(map[string]any)[genSvc].(map[string]any)["build"].(map[string]any)
+			vrtAssume(isMap && bm["context"] != nil)
+		}
+		sub := vrtRoot() + "/w/sub"
+		genFilesIn(sub)
+		vrtYamlFile(sub+"/base.yaml", genDocCopy(doc))
+		ext["file"] = "sub/base.yaml"
+		ps, es := genLoadIn(sub, genDocCopy(a))
+		vrtAssume(es == nil)
+		want = ps.Services[genSvc]
 	}
 	b["services"].(map[string]any)["t"] = map[string]any{"extends": ext, "hostname": "own"}
 	pb, eb := tcLoadProject(types.Mapping{}, nil, b)
@@ -153,7 +189,7 @@ func VerifGenExtends() {
 	// the base itself is unchanged by being extended
 	p0, e0 := tcLoadProject(types.Mapping{}, nil, genDocCopy(doc))
 	if e0 == nil {
-		vrtAssert("base-unchanged-by-extension#"+cls, vrtDeepEqual(any(pb.Services["s"]), any(p0.Services["s"])))
+		vrtAssert("base-unchanged-by-extension#"+cls, vrtDeepEqual(any(pb.Services[genSvc]), any(p0.Services[genSvc])))
 	}
 }
 
@@ -166,8 +202,18 @@ func VerifGenInclude() {
 	pa, ea := tcLoadProject(types.Mapping{}, nil, a)
 	vrtObserve("err", ea != nil)
 	vrtAssume(ea == nil)
-	vrtYamlFile(vrtRoot()+"/w/inc.yaml", genDocCopy(doc))
-	main := map[string]any{"include": []any{"inc.yaml"}, "services": map[string]any{"own": map[string]any{"image": "i"}}}
+	incPath := "inc.yaml"
+	if vrtChoice("includedIn", 2) == 1 {
+		// an included file of a sub-directory is a project of that directory
+		sub := vrtRoot() + "/w/sub"
+		genFilesIn(sub)
+		incPath = "sub/inc.yaml"
+		var es error
+		pa, es = genLoadIn(sub, genDocCopy(a))
+		vrtAssume(es == nil)
+	}
+	vrtYamlFile(vrtRoot()+"/w/"+incPath, genDocCopy(doc))
+	main := map[string]any{"include": []any{incPath}, "services": map[string]any{"own": map[string]any{"image": "i"}}}
 	pb, eb := tcLoadProject(types.Mapping{}, nil, main)
 	if eb != nil {
 		vrtObserve("msg", eb.Error())
@@ -189,14 +235,14 @@ func VerifGenInterp() {
 	vrtAssume(ea == nil)
 	// the same example with its leaves written as variables (keys are not interpolated and stay literal)
 	root := vrtSchemaTree()
-	g := &gen{root: root, atom: "${V}", num: "${N}", dur: "${D}", key: "k1"}
+	g := &gen{root: root, atom: "${V}", num: "${N}", dur: "${D}", key: genKey}
 	defs, _ := root["definitions"].(map[string]any)
 	def, _ := defs[site.def].(map[string]any)
 	props, _ := def["properties"].(map[string]any)
 	pm, _ := props[attr].(map[string]any)
 	ex := g.examples(pm, 0)
 	// the choice made by genPick is replayed by index
-	idx := genIndexOf(value, (&gen{root: root, atom: "v1", num: "10", dur: "1s", key: "k1"}).examples(pm, 0))
+	idx := genIndexOf(value, (&gen{root: root, atom: "v1", num: "10", dur: "1s", key: genKey}).examples(pm, 0))
 	vrtAssume(idx >= 0 && idx < len(ex))
 	pb, eb := tcLoadProject(types.Mapping{"V": "v1", "N": "10", "D": "1s"}, nil, genDoc(site, attr, ex[idx]))
 	if eb != nil {
